@@ -34,7 +34,11 @@ CONSTANTS
     Codes,          \* status codes usable in WriteHeader
     Chunks,         \* chunk kinds (strings) usable in Write
     Reqs,           \* request/response parameter records:
-                    \*   ae  : "yes" | "no" | "refused"   Accept-Encoding lists gzip / does not / lists it with q=0
+                    \*   ae  : "yes" | "no" | "refused" | "refusedwild" | "wild"
+                    \*         Accept-Encoding lists gzip with q>0 / does not list it (and no "*") / lists it with q=0 /
+                    \*         lists it with q=0 next to a "*" (RFC 7231 5.3.4: the explicit entry wins: refused) /
+                    \*         makes gzip acceptable only through "*" or an unusual spelling (compressing is permitted,
+                    \*         not required: the documentation speaks of 'Accept-Encoding: gzip')
                     \*   ct  : "match" | "nomatch" | "absent"   Content-Type of the response vs the expression
                     \*   enc : ""  or an existing Content-Encoding of the response
                     \*   cl  : the inner handler sets Content-Length
@@ -44,6 +48,11 @@ CONSTANTS
                     \*          WriteHeader calls, just before the first final op (how Early Hints are used);
                     \*          the response is the same, so the specification does not look at it
     MaxWriters,     \* bound on writers ever created (>= Cardinality(Handlers))
+    FlushSupported, \* whether a Flush of the inner handler (http.Flusher) gets through the compressing writer:
+                    \* TRUE  = it commits the header (status 200 unless set) and pushes what was written so far
+                    \*         - the compress decision is then due at the Flush, BEFORE the header is committed;
+                    \* FALSE = the writer offers no Flush and the call is a no-op.  Both are permitted.
+    WithFlush,      \* whether handler scripts contain Flush calls at all
     PutBeforeFlush  \* FALSE = the design; TRUE = a writer goes back to the pool before it is flushed (must break the invariants)
 
 VARIABLES
@@ -62,11 +71,19 @@ Idle == [pc |-> "idle", req |-> NoReq, mode |-> "undecided", writer |-> 0, statu
 
 -----------------------------------------------------------------------------
 \* the decision rule
-MayCompress(q)  == q.ae = "yes" /\ q.ct \in {"match", "absent"} /\ q.enc = ""
+MayCompress(q)  == q.ae \in {"yes", "wild"} /\ q.ct \in {"match", "absent"} /\ q.enc = ""
 MustCompress(q) == q.ae = "yes" /\ q.ct = "match" /\ q.enc = "" /\ q.acc # "sse"
 \* informational (1xx) WriteHeader calls are not part of the response proper
 Informational(c) == c >= 100 /\ c < 200
-IsFinalOp(op) == op.ev = "w" \/ (op.ev = "wh" /\ ~Informational(op.code))
+\* under the reading `honour` of Flush: is the op one that commits the header?
+FinalUnder(op, honour) == op.ev = "w" \/ (op.ev = "wh" /\ ~Informational(op.code)) \/ (op.ev = "fl" /\ honour)
+IsFinalOp(op) == FinalUnder(op, FlushSupported)
+\* the status net/http delivers for a script: that of the first committing op (200 unless it is a WriteHeader)
+StatusUnder(ops, honour) ==
+    LET fin == {i \in DOMAIN ops : FinalUnder(ops[i], honour)} IN
+    IF fin = {} THEN 200
+    ELSE LET i == CHOOSE j \in fin : \A k \in fin : j <= k IN
+         IF ops[i].ev = "wh" THEN ops[i].code ELSE 200
 NFinal(ops) == Cardinality({i \in DOMAIN ops : IsFinalOp(ops[i])})
 \* modes a response on which `n` final ops were performed may end in
 AllowedModes(q, n) == (IF MayCompress(q) THEN {"gzip"} ELSE {})
@@ -144,6 +161,23 @@ Write(h, k) ==
                  /\ wbuf' = Fresh(h, d)
     /\ hist' = Append(hist, Ev(h, "w", 0, k))
 
+\* Flush of the inner handler (between chunks of a streamed response, or before the first one to push
+\* the header out)
+FlushOp(h) ==
+    /\ hs[h].pc = "serving" /\ Len(hs[h].ops) < MaxOps
+    /\ IF FlushSupported
+       THEN \E d \in Choices(h) :
+              LET st1 == [After(h, d) EXCEPT !.status = IF @ = 0 THEN 200 ELSE @, !.ops = Append(@, Ev(h, "fl", 0, ""))] IN
+              /\ Take(h, d)
+              /\ IF st1.mode = "gzip"
+                 THEN /\ hs' = [hs EXCEPT ![h] = [st1 EXCEPT !.body = @ \o Fresh(h, d)[st1.writer]]]
+                      /\ wbuf' = [Fresh(h, d) EXCEPT ![st1.writer] = <<>>]
+                 ELSE /\ hs' = [hs EXCEPT ![h] = st1]
+                      /\ wbuf' = Fresh(h, d)
+       ELSE /\ hs' = [hs EXCEPT ![h].ops = Append(@, Ev(h, "fl", 0, ""))]
+            /\ UNCHANGED <<pool, made, wbuf, wtarget>>
+    /\ hist' = Append(hist, Ev(h, "fl", 0, ""))
+
 \* the handler returns: the writer is flushed into the response it is bound to, then returned
 Flush(h) ==
     LET w == hs[h].writer IN
@@ -170,6 +204,7 @@ Next == \E h \in Handlers :
           \/ \E q \in Reqs : Begin(h, q)
           \/ \E c \in Codes : WriteHeader(h, c)
           \/ \E k \in Chunks : Write(h, k)
+          \/ (WithFlush /\ FlushOp(h))
           \/ FinishFlush(h)
           \/ FinishPut(h)
 Spec == Init /\ [][Next]_vars
@@ -193,14 +228,12 @@ ContentIntact == \A h \in Handlers : hs[h].pc = "done" => hs[h].body = hs[h].inn
 DecisionRule == \A h \in Handlers : hs[h].pc # "idle" =>
                    /\ hs[h].mode # "undecided" => hs[h].mode \in AllowedModes(hs[h].req, NFinal(hs[h].ops))
                    /\ (hs[h].mode = "undecided") = (NFinal(hs[h].ops) = 0)
-                   /\ hs[h].mode = "gzip" => (hs[h].req.ae = "yes" /\ hs[h].req.enc = "" /\ hs[h].req.ct # "nomatch")
+                   /\ hs[h].mode = "gzip" => (hs[h].req.ae \in {"yes", "wild"} /\ hs[h].req.enc = "" /\ hs[h].req.ct # "nomatch")
 HeaderRule == \A h \in Handlers : hs[h].pc # "idle" =>
                  LET m == IF hs[h].mode = "undecided" THEN "plain" ELSE hs[h].mode IN
                  /\ hs[h].ce = ExpCE(hs[h].req, m)
                  /\ hs[h].cl = ExpCL(hs[h].req, m)
 StatusRule == \A h \in Handlers :
-                 LET fin == {i \in DOMAIN hs[h].ops : IsFinalOp(hs[h].ops[i])} IN
-                 IF fin = {} THEN hs[h].status = 0
-                 ELSE LET i == CHOOSE j \in fin : \A k \in fin : j <= k IN
-                      hs[h].status = IF hs[h].ops[i].ev = "wh" THEN hs[h].ops[i].code ELSE 200
+                 IF NFinal(hs[h].ops) = 0 THEN hs[h].status = 0
+                 ELSE hs[h].status = StatusUnder(hs[h].ops, FlushSupported)
 =============================================================================
